@@ -91,9 +91,14 @@ def _cfg_lattice_coherent(rng):
 
 
 def _cfg_lattice(rng):
+  _state["coherent"] = False
   if rng.rand() < .6:
+    _state["coherent"] = True
     return _cfg_lattice_coherent(rng)
   sizes = pick(rng, [[2, 2], [2, 3], [3, 3], [3, 3, 2], [2], [3], (2, 3), [2, 2, 2], [1, 2]], 8)
+  focus_trusts = rng.rand() < .35
+  if focus_trusts:
+    sizes = pick(rng, [[2, 2, 2], [3, 2, 2], [2, 3, 2, 2]])
   rank = len(sizes)
   mono = pick(rng, [None, [1] + [0] * (rank - 1), ["increasing"] + ["none"] * (rank - 1), [1] * rank, tuple([1] * rank), [0] * rank, "increasing",
                     [-1] + [0] * (rank - 1), [2] + [0] * (rank - 1), ["decreasing"] * rank], 7)
@@ -107,6 +112,16 @@ def _cfg_lattice(rng):
   ju_opts = [None, None, None, ([rank - 1], "valley"), [([rank - 1], "peak")], ([0, 1], "peak"), ([0], "bogus"), ([0, 0], "peak")]
   NJ = 5
   b = pick(rng, [(None, None), (0.0, 1.0), (None, 1.0), (0.0, None), (-2.0, -1.0), (1.0, 0.0), (0.5, 0.5)], 5)
+  if focus_trusts or (rank >= 3 and rng.rand() < .5):
+    # random trust lists over >= 3 features (order of the list matters to a sloppy validator)
+    mono = [1] * rank
+    uni = None
+    def rt():
+      m, c = [int(v) for v in rng.choice(rank, 2, replace=False)]
+      return t(m, c, int(rng.choice([-1, 1])))
+    lists = [[rt() for _ in range(int(rng.randint(1, 4)))] for _ in range(2)]
+    trust_opts = [lists[0], lists[1], None]
+    NT = 3
   cfg = dict(lattice_sizes=sizes, units=pick(rng, [1, 1, 2]), monotonicities=mono, unimodalities=uni,
              edgeworth_trusts=pick(rng, trust_opts, NT) if rank >= 2 else None, trapezoid_trusts=pick(rng, trust_opts, NT) if rank >= 2 else None,
              monotonic_dominances=pick(rng, dom_opts, ND) if rank >= 2 else None, range_dominances=pick(rng, dom_opts, ND) if rank >= 2 else None,
@@ -118,7 +133,7 @@ def _cfg_lattice(rng):
   return cfg
 
 
-def _life_cycle(ctx, what, cfg, construct, build_and_eval, info_extra=None):
+def _life_cycle(ctx, what, cfg, construct, build_and_eval, info_extra=None, must_reject=None, must_accept=False):
   """construct() -> obj ; build_and_eval(obj, phase) performs build/first call
   and, once accepted, the weight assignment / projection / evaluation."""
   tf = _state["tf"]
@@ -132,6 +147,9 @@ def _life_cycle(ctx, what, cfg, construct, build_and_eval, info_extra=None):
   except ValueError as e:
     ctx.check(site_a, True)
     ctx.cls(what + ":rejected")
+    if must_accept and must_reject is None:
+      ctx.check("reference/valid-configuration-accepted", False,
+                "%s: a configuration that is valid by construction was rejected: %s" % (what, str(e).strip().splitlines()[-1][:160]), info=info)
     return "rejected"
   except Exception as e:
     fk = findings.classify_c16(what, cfg, "build", e)
@@ -140,6 +158,9 @@ def _life_cycle(ctx, what, cfg, construct, build_and_eval, info_extra=None):
     return "crashed"
   ctx.check(site_a, True)
   ctx.cls(what + ":accepted")
+  if True:
+    ctx.check("reference/invalid-configuration-rejected", must_reject is None,
+              "%s accepted although the documentation says it must be rejected: %s" % (what, must_reject), info=info)
   try:
     problems = build_and_eval(obj, "run")
     ctx.check("lifecycle/accepted-runs-finitely", not problems, "%s accepted, then: %s" % (what, "; ".join(problems or [])), info=info)
@@ -193,13 +214,22 @@ def _run_lattice(ctx, rng, explicit=None):
       layer(tf.constant(x))
       return True
     return _project_and_eval(layer, rng, tf.constant(x))
-  return _life_cycle(ctx, "Lattice", cfg, lambda: tfl.layers.Lattice(**cfg), bae)
+  from tflv.oracles import validity
+  return _life_cycle(ctx, "Lattice", cfg, lambda: tfl.layers.Lattice(**cfg), bae, must_reject=validity.lattice_must_reject(cfg),
+                     must_accept=bool(_state.get("coherent")) and explicit is None)
 
 
-def _run_lattice_constraints(ctx, rng):
+def _run_lattice_constraints(ctx, rng, explicit=None):
   tf = _state["tf"]
   from tensorflow_lattice.python import lattice_layer as ll
   cfg = _cfg_lattice(rng)
+  if explicit is not None:
+    _state["coherent"] = False
+    base = dict(units=1, monotonic_at_every_step=True, clip_inputs=True, interpolation="hypercube", kernel_initializer="linear_initializer",
+                edgeworth_trusts=None, trapezoid_trusts=None, monotonic_dominances=None, range_dominances=None, joint_monotonicities=None,
+                joint_unimodalities=None, unimodalities=None, num_projection_iterations=1)
+    base.update(explicit)
+    cfg = base
   # the single-tuple spelling is normalised by the Lattice layer; the constraint class takes lists
   for k in ("edgeworth_trusts", "trapezoid_trusts", "monotonic_dominances", "range_dominances", "joint_monotonicities"):
     if isinstance(cfg[k], tuple):
@@ -220,7 +250,8 @@ def _run_lattice_constraints(ctx, rng):
     w = (rng.normal(size=(n, units)) * 3).astype(np.float32)
     out = c(tf.constant(w)).numpy()
     return [] if np.all(np.isfinite(out)) else ["non-finite projection"]
-  return _life_cycle(ctx, "LatticeConstraints", cfg, lambda: ll.LatticeConstraints(**cfg), bae)
+  from tflv.oracles import validity
+  return _life_cycle(ctx, "LatticeConstraints", cfg, lambda: ll.LatticeConstraints(**cfg), bae, must_reject=validity.lattice_must_reject(cfg), must_accept=bool(_state.get("coherent")))
 
 
 def _run_pwl(ctx, rng, explicit=None):
@@ -237,7 +268,7 @@ def _run_pwl(ctx, rng, explicit=None):
              num_projection_iterations=pick(rng, [0, 1, 8]), split_outputs=pick(rng, [False, False, True]),
              input_keypoints_type=pick(rng, ["fixed", "fixed", "learned_interior", "bogus"], 3))
   cfg = explicit or cfg
-  x = rng.uniform(-1, 3, size=(5, 1)).astype(np.float32)
+  x = np.concatenate([rng.uniform(-1, 3, size=(5, 1)), np.asarray(list(cfg["input_keypoints"]), dtype=np.float64).reshape(-1, 1)]).astype(np.float32)
 
   def bae(layer, phase):
     inp = tf.constant(x)
@@ -247,7 +278,8 @@ def _run_pwl(ctx, rng, explicit=None):
       layer(inp)
       return True
     return _project_and_eval(layer, rng, inp)
-  return _life_cycle(ctx, "PWLCalibration", cfg, lambda: tfl.layers.PWLCalibration(**cfg), bae)
+  from tflv.oracles import validity
+  return _life_cycle(ctx, "PWLCalibration", cfg, lambda: tfl.layers.PWLCalibration(**cfg), bae, must_reject=validity.pwl_must_reject(cfg))
 
 
 def _run_linear(ctx, rng, explicit=None):
@@ -272,7 +304,8 @@ def _run_linear(ctx, rng, explicit=None):
       layer(tf.constant(x))
       return True
     return _project_and_eval(layer, rng, tf.constant(x))
-  return _life_cycle(ctx, "Linear", cfg, lambda: tfl.layers.Linear(**cfg), bae)
+  from tflv.oracles import validity
+  return _life_cycle(ctx, "Linear", cfg, lambda: tfl.layers.Linear(**cfg), bae, must_reject=validity.linear_must_reject(cfg))
 
 
 def _run_categorical(ctx, rng):
@@ -291,7 +324,9 @@ def _run_categorical(ctx, rng):
       layer(tf.constant(x))
       return True
     return _project_and_eval(layer, rng, tf.constant(x))
-  return _life_cycle(ctx, "CategoricalCalibration", cfg, lambda: tfl.layers.CategoricalCalibration(**cfg), bae)
+  from tflv.oracles import validity
+  return _life_cycle(ctx, "CategoricalCalibration", cfg, lambda: tfl.layers.CategoricalCalibration(**cfg), bae,
+                     must_reject=validity.categorical_must_reject(cfg))
 
 
 def _run_kfl(ctx, rng, explicit=None):
@@ -311,7 +346,9 @@ def _run_kfl(ctx, rng, explicit=None):
       layer(tf.constant(x))
       return True
     return _project_and_eval(layer, rng, tf.constant(x))
-  return _life_cycle(ctx, "KroneckerFactoredLattice", cfg, lambda: tfl.layers.KroneckerFactoredLattice(**cfg), bae)
+  from tflv.oracles import validity
+  return _life_cycle(ctx, "KroneckerFactoredLattice", cfg, lambda: tfl.layers.KroneckerFactoredLattice(**cfg), bae,
+                     must_reject=validity.kfl_must_reject(cfg, dims))
 
 
 def _run_cdf(ctx, rng, explicit=None):
